@@ -3,6 +3,7 @@ CONSTANTS
  Callers <- K1
  Mode = "idle"
  ReCheck = TRUE
+ OwnStart = TRUE
  D7Stutter = FALSE
 INVARIANT OneRunner
 INVARIANT OneLockPerLoop
